@@ -41,6 +41,10 @@ def includes(repo, flavour):
     if flavour == "c":
         return [p("platform/gcc_no_tls"), p("platform/linux"), p("platform/gcc"), p("platform/posix"),
                 p("platform/x86_64"), p("public"), p("internal")]
+    if flavour == "ctls":
+        # the thread-local flavour of internal/common.c (HAVE_THREAD_LOCAL = 1, as in the default builds): compiler.h is the tree's platform/gcc
+        # one with THREAD_LOCAL made an ordinary static, which the runtime saves and restores per fiber (rt_fiber_word); see _do_build
+        return [p("platform/linux"), p("platform/gcc"), p("platform/posix"), p("platform/x86_64"), p("public"), p("internal")]
     if flavour == "c11":
         return ["-DNSYNC_ATOMIC_C11", p("platform/gcc_no_tls"), p("platform/c11"), p("platform/linux"), p("platform/gcc"),
                 p("platform/posix"), p("platform/x86_64"), p("public"), p("internal")]
@@ -128,6 +132,15 @@ def _do_build(harness, flavour, out, repo, srcs, rt_srcs, inc, cc, uut_flags, wr
     jobs = []
     objs = []
     write_uut_structs(repo, out)
+    if flavour == "ctls":
+        tdir = os.path.join(out, "tlsinc"); os.makedirs(tdir, exist_ok=True)
+        txt = open(os.path.join(repo, "platform/gcc/compiler.h")).read()
+        import re
+        txt2 = re.sub(r"#define\s+THREAD_LOCAL\s+__thread", "#define THREAD_LOCAL /* per fiber: see rt_fiber_word */", txt)
+        if txt2 == txt or not re.search(r"#define\s+HAVE_THREAD_LOCAL\s+1", txt):
+            sys.stderr.write("BUILD FAILED: platform/gcc/compiler.h does not define THREAD_LOCAL as __thread with HAVE_THREAD_LOCAL 1\n"); sys.exit(2)
+        open(os.path.join(tdir, "compiler.h"), "w").write(txt2)
+        inc = ["-I" + tdir] + inc
     for s in srcs:
         o = os.path.join(out, "uut_" + os.path.basename(s).replace(".", "_") + ".o")
         jobs.append((cc + uut_flags + inc + ["-c", os.path.join(repo, s), "-o", o], o, True))
